@@ -81,6 +81,10 @@ def cases_sampler(tier):
                     yield "%s/R%dP%dN%d/mask=%s/%s" % (method, R, P, N, mask, "shared" if shared else "per-realization"), {
                         "method": method, "R": R, "P": P, "N": N, "mask": mask, "shared": shared, "options": {}}
     yield "uniform/R2P1N1/options-override", {"method": "uniform", "R": 2, "P": 1, "N": 1, "mask": None, "shared": False, "options": {"loc": 0.0, "scale": 0.5}}
+    # a sampler with default options created after (and used after) another instance of the same method that was given explicit
+    # options: instances must not share option state
+    for method, prior in (("uniform", {"loc": -5.0, "scale": 10.0}), ("truncnorm", {"a": -4.0, "b": 4.0}), ("norm", {"scale": 3.0}), ("sobol", {"scramble": False}), ("lhs", {"scramble": False})):
+        yield "%s/R2P1N2/after-an-instance-with-options" % method, {"method": method, "R": 2, "P": 1, "N": 2, "mask": None, "shared": False, "options": {}, "prior": prior}
 
 
 def scn_sampler(T, case):
@@ -115,6 +119,14 @@ def scn_sampler(T, case):
             realizations=types.SimpleNamespace(weights=np.ones(R) / R),
             gradient=types.SimpleNamespace(number_of_perturbations=P),
         )
+        if case.get("prior"):
+            prior = dict(case["prior"])
+            cfg0 = types.SimpleNamespace(samplers=(types.SimpleNamespace(method="scipy/" + method, options=prior, shared=shared),), variables=cfg.variables,
+                                         realizations=cfg.realizations, gradient=cfg.gradient)
+            cls(cfg0, 0, marr, rng).generate_samples()
+            T.prove("C17.frame.configured_options_not_modified", prior == case["prior"])
+            del log[:]
+            del draws[:]
         smp = cls(cfg, 0, marr, rng)
         out1 = smp.generate_samples()
         snap1 = out1.copy()
@@ -157,6 +169,7 @@ def scn_sampler(T, case):
             T.prove("C17.default_options_keep_bounded_distributions_in_range", entry[3] == want)
         if entry[0] == "engine":
             T.prove("C17.frame.engine_seeded_with_the_given_generator", entry[2] is rng and entry[1] == d)
+            T.prove("C17.engine_options_are_the_configured_ones", entry[3] == case["options"])
 
 
 # ------------------------------------------------------------------------------------ native comparison with the real SciPy
